@@ -1,4 +1,8 @@
 import GB.C17.Proofs
+import GB.C17.Model2
+import GB.C12.Props
+import GB.C14.Props
+import GB.Generated.Facts
 import GB.C03.Props
 import GB.C04.Props
 import GB.C08.Props
@@ -683,3 +687,305 @@ example : backToRuneStart [226, 130, 172, 226, 130, 172] 4 = .ok 3 := by decide
 example : recvHTTPStatus false .bodyUnmarshal = some 400 := by decide
 example : recvHTTPStatus true .bodyPath = some 500 := by decide
 example : traverseFieldPath (fun _ _ => some (.message 0)) 0 [97, 46, 98, 46] = .ok (.field 0 [98]) := by decide
+
+/-! ## Round 5: whole-function Fault models (Model2.lean) and the remaining re-exports (C12, C14) -/
+
+theorem C17_route_iter_eq (comps : List Bytes) (last verb : Bytes) :
+    routeIter comps last comps.length verb = routeSlicesAt comps last (verbIndex last verb) := by
+  unfold routeIter routeSlicesAt goReslice
+  by_cases h0 : (verbIndex last verb == 0) = true
+  · simp [h0]
+  · have hc : (0 : Int) ≤ (comps.length : Int) ∧ (comps.length : Int) ≤ (comps.length : Int) := by omega
+    simp [h0, hc, bind, Except.bind]
+
+theorem C17_mapM_ok {α β : Type} (f : α → Except Fault β) (g : α → β) (xs : List α) (h : ∀ x ∈ xs, f x = .ok (g x)) :
+    xs.mapM f = .ok (xs.map g) := by
+  induction xs with
+  | nil => rfl
+  | cons x xs ih =>
+    have hx := h x (by simp)
+    have ih' := ih (fun y hy => h y (by simp [hy]))
+    simp [List.mapM_cons, hx, ih', bind, Except.bind, pure, Except.pure]
+
+/-- **`RouteHTTP` as a whole never faults, whatever the path and however many routes the method list has**:
+    the shared `matchComponents` buffer is re-sliced within its capacity on every iteration, and every route
+    gets exactly what the per-route model `routeSlices` (proved equal to C03's `stepRoute`) says.
+    `none` (InvalidArgument ⇒ 400) iff the path does not start with '/'. -/
+theorem C17_route_all_no_panic (path : Bytes) (verbs : List Bytes) :
+    ∃ rs, routeAll path verbs = .ok rs ∧ (rs = none ↔ hasPrefix path [47] = false) ∧
+      ∀ l, rs = some l → l.length = verbs.length ∧
+        ∀ (i : Nat) (h1 : i < verbs.length) (h2 : i < l.length), routeSlices path verbs[i] = .ok l[i] := by
+  unfold routeAll
+  cases hp : hasPrefix path [47] with
+  | false => exact ⟨none, by simp, by simp, by intro l h; cases h⟩
+  | true =>
+    have hlen := prefix_length path [47] hp
+    simp only [List.length_cons, List.length_nil] at hlen
+    obtain ⟨p1, hp1⟩ := goSlice_ok path 1 path.length (by omega)
+    have hpos := splitSlash_length_pos p1
+    obtain ⟨last, hlast⟩ := goIndexL_ok (GB.C03.splitSlash p1) (((GB.C03.splitSlash p1).length : Int) - 1) (by omega) (by omega)
+    -- every route: routeSlices path v = routeSlicesAt … = routeIter …
+    have hrs : ∀ v, routeSlices path v = routeSlicesAt (GB.C03.splitSlash p1) last (verbIndex last v) := by
+      intro v
+      unfold routeSlices
+      simp only [hp, Bool.not_true, Bool.false_eq_true, ↓reduceIte, goSliceFrom, hp1, bind, Except.bind, hlast]
+    have hall : ∀ v, ∃ r, routeSlices path v = .ok r := fun v => C17_route_slices_no_panic path v
+    let g : Bytes → RouteSlices := fun v => (hall v).choose
+    have hg : ∀ v, routeSlices path v = .ok (g v) := fun v => (hall v).choose_spec
+    have hm := C17_mapM_ok (routeIter (GB.C03.splitSlash p1) last ((GB.C03.splitSlash p1).length : Int)) g verbs
+      (fun v _ => by rw [C17_route_iter_eq, ← hrs v]; exact hg v)
+    refine ⟨some (verbs.map g), ?_, by simp, ?_⟩
+    · simp only [Bool.not_true, Bool.false_eq_true, ↓reduceIte, goSliceFrom, hp1, bind, Except.bind, hlast, hm]
+    · intro l hl
+      cases hl
+      refine ⟨by simp, ?_⟩
+      intro i h1 h2
+      simp [List.getElem_map, hg]
+
+/-- The request targets WITHOUT a path — `CONNECT host:port`, absolute-form `http://host` (both reach the handler
+    with `URL.Path == ""`, hence `EscapedPath() == ""`), `OPTIONS *` (`Path == "*"`) — and every other path
+    without a leading slash: `path[1:]` is never evaluated, the answer is InvalidArgument (HTTP 400). -/
+theorem C17_route_no_leading_slash (rawPath escPath : Bytes) (verbs : List Bytes)
+    (h : (requestPath rawPath escPath).head? ≠ some 47) :
+    routeAll (requestPath rawPath escPath) verbs = .ok none := by
+  unfold routeAll
+  have : hasPrefix (requestPath rawPath escPath) [47] = false := by
+    unfold hasPrefix
+    cases hq : requestPath rawPath escPath with
+    | nil => rfl
+    | cons c cs =>
+      rw [hq] at h
+      have hc : c ≠ 47 := by intro e; apply h; simp [e]
+      simp [List.isPrefixOf, Ne.symm hc]
+  simp [this]
+
+theorem C17_route_empty_path (verbs : List Bytes) : routeAll (requestPath [] []) verbs = .ok none :=
+  C17_route_no_leading_slash [] [] verbs (by decide)
+
+theorem C17_route_star_path (verbs : List Bytes) : routeAll (requestPath [] [42]) verbs = .ok none :=
+  C17_route_no_leading_slash [] [42] verbs (by decide)
+
+/-! ### parseMetadataQuery as a whole: the lazily created maps -/
+
+theorem C17_md_vals_loop (mk : Bytes) (vals : List Bytes) (md : NilMap GB.C19.MD) :
+    ∃ md', mdValsLoop mk vals md = .ok md' ∧
+      md'.getD [] = (vals.filter GB.C19.isValidMetadataValue).foldl (fun m v => GB.C19.mdAppend1 m mk v) (md.getD []) := by
+  induction vals generalizing md with
+  | nil => exact ⟨md, rfl, rfl⟩
+  | cons v vs ih =>
+    unfold mdValsLoop
+    cases hv : GB.C19.isValidMetadataValue v with
+    | false => simpa [hv, List.filter] using ih md
+    | true =>
+      cases md with
+      | none =>
+        obtain ⟨md', h1, h2⟩ := ih (some (GB.C19.mdAppend1 [] mk v))
+        exact ⟨md', by simpa [hv, mdAppendGo, bind, Except.bind] using h1, by simpa [hv, List.filter] using h2⟩
+      | some m =>
+        obtain ⟨md', h1, h2⟩ := ih (some (GB.C19.mdAppend1 m mk v))
+        exact ⟨md', by simpa [hv, mdAppendGo, bind, Except.bind] using h1, by simpa [hv, List.filter] using h2⟩
+
+theorem C17_md_query_step (param : Bytes) (orig : GB.C19.Values) (st : MQSt) (e : Bytes × List Bytes) :
+    ∃ st', mdQueryStep param orig st e = .ok st' ∧
+      st'.md.getD [] = GB.C19.mdStep param (st.md.getD []) e ∧
+      st'.modified.isSome = (st.modified.isSome || GB.C19.isMetaKey param e.1) := by
+  unfold mdQueryStep GB.C19.mdStep
+  cases hm : GB.C19.isMetaKey param e.1 with
+  | false => exact ⟨st, by simp, by simp, by simp⟩
+  | true =>
+    have hlen := C19_mdquery_slice_in_range param e.1 hm
+    have hs := goSlice_eq e.1 (param.length + 1) (e.1.length - 1) (by omega)
+    have e1 : ((param.length + 1 : Nat) : Int) = (param.length : Int) + 1 := by omega
+    have e2 : ((e.1.length - 1 : Nat) : Int) = (e.1.length : Int) - 1 := by omega
+    rw [e1, e2] at hs
+    have hk : (e.1.take (e.1.length - 1)).drop (param.length + 1) = GB.C19.mdKeyOf param e.1 := by
+      unfold GB.C19.mdKeyOf
+      rw [List.drop_take]
+    rw [hk] at hs
+    have hsome : ∀ (o : NilMap GB.C19.Values), (mapDeleteGo (match o with | none => some orig | some m => some m) e.1).isSome = true := by
+      intro o; cases o <;> simp [mapDeleteGo]
+    simp only [Bool.not_true, Bool.false_eq_true, ↓reduceIte, hs, bind, Except.bind]
+    cases hvk : GB.C19.isValidMetadataKey (GB.C19.mdKeyOf param e.1) with
+    | false =>
+      simp only [Bool.not_false, ↓reduceIte]
+      exact ⟨_, rfl, by simp, by show Option.isSome (mapDeleteGo _ e.1) = _; cases st.modified <;> simp [mapDeleteGo]⟩
+    | true =>
+      obtain ⟨md', h1, h2⟩ := C17_md_vals_loop (GB.C19.mdKeyOf param e.1) e.2 st.md
+      simp only [Bool.not_true, Bool.false_eq_true, ↓reduceIte, h1]
+      exact ⟨_, rfl, by simpa using h2, by show Option.isSome (mapDeleteGo _ e.1) = _; cases st.modified <;> simp [mapDeleteGo]⟩
+
+theorem C17_md_query_loop (param : Bytes) (orig : GB.C19.Values) (es : List (Bytes × List Bytes)) (st : MQSt) :
+    ∃ st', mdQueryLoop param orig es st = .ok st' ∧
+      st'.md.getD [] = es.foldl (GB.C19.mdStep param) (st.md.getD []) ∧
+      st'.modified.isSome = (st.modified.isSome || es.any (fun e => GB.C19.isMetaKey param e.1)) := by
+  induction es generalizing st with
+  | nil => exact ⟨st, rfl, rfl, by simp⟩
+  | cons e es ih =>
+    obtain ⟨s1, h1, h2, h3⟩ := C17_md_query_step param orig st e
+    obtain ⟨s2, g1, g2, g3⟩ := ih s1
+    refine ⟨s2, ?_, ?_, ?_⟩
+    · unfold mdQueryLoop; simp [h1, g1, bind, Except.bind]
+    · rw [g2, h2]; rfl
+    · rw [g3, h3]; simp [Bool.or_assoc]
+
+/-- **`parseMetadataQuery` as a whole never faults** — the key slice stays in bounds and `md.Append` is never
+    reached with a nil map — and its metadata / "query was rewritten" results are C19's total model, for every
+    parameter name and every query (any number of keys, values, duplicates). -/
+theorem C17_mdquery_no_panic (param0 : Bytes) (q : GB.C19.Values) :
+    ∃ st, parseMetadataQueryGo param0 q = .ok st ∧
+      st.md.getD [] = (GB.C19.parseMetadataQuery param0 q).md ∧
+      st.modified.isSome = (GB.C19.parseMetadataQuery param0 q).modified := by
+  obtain ⟨st, h1, h2, h3⟩ := C17_md_query_loop (if param0.isEmpty then GB.C19.defaultParam else param0) q q ⟨none, none⟩
+  exact ⟨st, h1, by simpa [GB.C19.parseMetadataQuery] using h2, by simpa [GB.C19.parseMetadataQuery] using h3⟩
+
+/-! ### unchecked type assertions -/
+
+theorem C17_sock_messages (want : Dyn) (hw : want ≠ .absent) (n : Nat) :
+    sockRun want want (List.replicate n .message) = .ok want := by
+  induction n with
+  | zero => rfl
+  | succ n ih => simp [List.replicate_succ, sockRun, loadAssert, hw, ih, bind, Except.bind]
+
+/-- `OnMessage`'s `streamAny.(*gwsStream)` / `.(*gRPCWebSocketStream)` cannot fail: the handler stores the stream
+    in the session BEFORE it starts `ReadLoop`, so every message finds a value of the asserted type. -/
+theorem C17_session_assert_safe (want : Dyn) (hw : want ≠ .absent) (n : Nat) :
+    sockRun want .absent (handlerOrder want n) = .ok want := by
+  unfold handlerOrder
+  simp only [sockRun]
+  exact C17_sock_messages want hw n
+
+/-- `staticPatternRoutingTable.iterate`: a missing method key is not dereferenced, and a list holding only
+    `targetPatternRoutes` values (all `addRoute`/`cloneLinkedList` ever push) passes every assertion. -/
+theorem C17_iterate_no_fault (lst : Option (List Bool)) (h : ∀ l, lst = some l → ∀ b ∈ l, b = true) :
+    ∃ n, iterateGo lst = .ok n := by
+  cases lst with
+  | none => exact ⟨0, rfl⟩
+  | some l =>
+    have hl := h l rfl
+    unfold iterateGo
+    suffices ∀ (k : Nat), ∃ n, l.foldlM (fun n isTPR => if isTPR then (.ok (n + 1) : Except Fault Nat) else .error .typeAssertion) k = .ok n from this 0
+    clear h
+    induction l with
+    | nil => intro k; exact ⟨k, rfl⟩
+    | cons b bs ih =>
+      intro k
+      have hb : b = true := hl b (by simp)
+      obtain ⟨n, hn⟩ := ih (fun x hx => hl x (by simp [hx])) (k + 1)
+      exact ⟨n, by simp [List.foldlM, hb, hn, bind, Except.bind]⟩
+
+/-! ### `routing.parseRPCName` = C14's model; re-exports of C12 / C14 -/
+
+theorem C17_cutSlash_is_C14 (s : Bytes) :
+    GB.C14.cutSlash s = (if (cutSlash s).2.2 then some ((cutSlash s).1, (cutSlash s).2.1) else none) := by
+  induction s with
+  | nil => rfl
+  | cons c cs ih =>
+    unfold GB.C14.cutSlash cutSlash
+    by_cases hc : c = 47
+    · simp [hc, GB.C14.slash]
+    · have hc' : (c == 47) = false := by simpa using hc
+      simp only [GB.C14.slash, hc, ↓reduceIte, hc', Bool.false_eq_true, ih]
+      split <;> simp_all
+
+/-- The Fault-explicit `parseRPCName` (`rpcName[0]`, `rpcName[1:]`) never faults and IS C14's total model. -/
+theorem C17_parse_rpc_name_is_C14 (name : Bytes) :
+    ∃ r, parseRPCName name = .ok r ∧ rpcNameAsC14 r = GB.C14.parseRPCName name := by
+  cases name with
+  | nil => exact ⟨_, rfl, by simp [rpcNameAsC14, GB.C14.parseRPCName, C17_cutSlash_is_C14]⟩
+  | cons c rest =>
+    unfold parseRPCName GB.C14.parseRPCName rpcNameAsC14
+    have hi : goIndex (c :: rest) 0 = .ok c := by simp [goIndex]
+    have hs : goSliceFrom (c :: rest) 1 = .ok rest := by
+      have := goSlice_eq (c :: rest) 1 (c :: rest).length (by simp)
+      simpa [goSliceFrom] using this
+    by_cases hc : c = 47
+    · subst hc
+      refine ⟨cutSlash rest, ?_, ?_⟩
+      · simp [hi, hs, bind, Except.bind, pure, Except.pure]
+      · simp [GB.C14.slash, C17_cutSlash_is_C14]
+    · have hc' : (c == 47) = false := by simpa using hc
+      refine ⟨cutSlash (c :: rest), ?_, ?_⟩
+      · simp [hi, hc', bind, Except.bind, pure, Except.pure]
+      · simp [hc, GB.C14.slash, C17_cutSlash_is_C14]
+
+/-- C14: a gRPC method name is malformed exactly when no '/' follows the optional leading one — a total decision,
+    answered Unimplemented (`C14_route_grpc`), never a panic. -/
+theorem C17_rpc_name_malformed_total (s : Bytes) : GB.C14.parseRPCName s = none ↔ GB.C14.slash ∉ GB.C14.strip s :=
+  C14_parse_malformed s
+
+/-- C12: every malformed `grpc-timeout` value (signs, spaces, empty or over-long digit runs, bad unit) is IGNORED. -/
+theorem C17_timeout_malformed_ignored (s : Bytes)
+    (h : ¬ ∃ ds u, s = ds ++ [u] ∧ 1 ≤ ds.length ∧ ds.length ≤ 8 ∧ (∀ b ∈ ds, GB.C12.isDigit b = true) ∧ (GB.C12.specUnit u).isSome) :
+    GB.C12.decodeTimeout s = none := C12_malformed_ignored s h
+
+/-- C12: the int64 product of an accepted `grpc-timeout` never overflows and is never negative. -/
+theorem C17_timeout_no_overflow (s : Bytes) (n : Int) (h : GB.C12.decodeTimeout s = some n) :
+    0 ≤ n ∧ n ≤ 9223372036854775807 := C12_no_overflow s n h
+
+/-- C04: the whole request population (path parameters, query, body) never reaches a Fault, unary and streaming. -/
+theorem C17_population_no_fault (sch : GB.C04.Schema) (orc : GB.C04.Oracle) (root : GB.C04.MsgDesc) (bd : GB.C04.Binding)
+    (dec : GB.C04.Dec) (rq : GB.C04.Request) (h : GB.C04.wfInputs sch orc root rq = true) :
+    GB.C04.transcode sch orc root bd dec rq ≠ .error .fault := C04_no_fault sch orc root bd dec rq h
+
+theorem C17_population_no_fault_stream (sch : GB.C04.Schema) (orc : GB.C04.Oracle) (root : GB.C04.MsgDesc) (bd : GB.C04.Binding)
+    (rq : GB.C04.Request) (decs : List GB.C04.Dec) (h : GB.C04.wfInputs sch orc root rq = true) :
+    ∀ r ∈ GB.C04.streamTranscode sch orc root bd rq decs, r ≠ .error .fault := C04_no_fault_stream sch orc root bd rq decs h
+
+example : routeAll [] [[118]] = .ok none := by decide
+example : routeAll [42] [[118], []] = .ok none := by decide
+example : routeAll [104, 58, 56, 48] [[]] = .ok none := by decide          -- "h:80"
+example : routeAll [47] [[], [118]] = .ok (some [.comps [[]] [], .comps [[]] []]) := by decide
+example : routeAll [47, 58, 118] [[], [118]] = .ok (some [.comps [[58, 118]] [], .skipRoute]) := by decide
+example : goReslice 1 2 = .error .sliceBounds := by decide
+example : mdAppendGo none [97] [98] = .error .nilMapWrite := by decide
+example : sockRun .gwsStream .absent [.message] = .error .typeAssertion := by decide
+example : sockRun .gwsStream .absent [.store .grpcWebSocketStream, .message] = .error .typeAssertion := by decide
+example : iterateGo (some [true, false]) = .error .typeAssertion := by decide
+
+/-! ### hang side -/
+
+/-- Regenerated from the AST of package webbridge: every incoming-stream `Recv` gives up when the call's context
+    ends — the two body readers run inside `withCtx(ctx, …)`, the two WebSocket ones select on `ctx.Done()` — the request
+    body is read only by the two lower-case `recv` helpers, and no `recv` helper call, body read or channel receive on
+    the handler path escapes those guards. -/
+theorem C17_facts_recv_guarded :
+    GB.Generated.c17RecvGuards =
+      [("gRPCWebSocketStream.Recv", "select"), ("gRPCWebStream.Recv", "withCtx"), ("gwsStream.Recv", "select"), ("httpStream.Recv", "withCtx")] ∧
+    GB.Generated.c17BodyReaders = ["gRPCWebStream.recv", "httpStream.recv"] ∧
+    GB.Generated.c17UnguardedReads = [] := by decide
+
+/-- Soundness of the judgement of the raw TCP cases: an accepted case has a handler that returned while the client was
+    still connected and silent, a complete response with a status in range, for gRPC-Web exactly one trailer frame
+    (last) with a grpc-status on a 200, and no 5xx for a request target without a path. -/
+theorem C17_accepted_tcp (c : TcpCase) (h : tcpViolations c = []) :
+    c.returned = true ∧ 200 ≤ c.status ∧ c.status < 600 ∧ c.bodyDone = true ∧
+    (c.gwct = true → c.status = 200 ∧ c.gwFramesOK = true ∧ c.trailers = 1 ∧ c.grpcStatus.isSome = true) ∧
+    (c.idle = false → c.status < 500) := by
+  unfold tcpViolations at h
+  simp only [List.append_eq_nil_iff] at h
+  obtain ⟨h1, h2⟩ := h
+  have hret : c.returned = true := by
+    cases hr : c.returned <;> simp [hr] at h1 ⊢
+  cases hs0 : (c.status == 0) with
+  | true => simp [hs0] at h2
+  | false =>
+    simp only [hs0, Bool.false_eq_true, ↓reduceIte, List.append_eq_nil_iff] at h2
+    obtain ⟨⟨⟨h3, h4⟩, h5⟩, h6⟩ := h2
+    have hrange : (200 ≤ c.status && c.status < 600) = true := by
+      cases hr : (200 ≤ c.status && c.status < 600) <;> simp [hr] at h3 ⊢
+    have hdone : c.bodyDone = true := by
+      cases hr : c.bodyDone <;> simp [hr] at h4 ⊢
+    simp only [Bool.and_eq_true, decide_eq_true_eq] at hrange
+    refine ⟨hret, hrange.1, hrange.2, hdone, ?_, ?_⟩
+    · intro hg
+      simp only [hg, ↓reduceIte, List.append_eq_nil_iff] at h5
+      obtain ⟨⟨⟨a, b⟩, c1⟩, d⟩ := h5
+      refine ⟨?_, ?_, ?_, ?_⟩
+      · cases hr : (c.status != 200) <;> simp [hr] at a; simpa using hr
+      · cases hr : c.gwFramesOK <;> simp [hr] at b ⊢
+      · cases hr : (c.trailers != 1) <;> simp [hr] at c1; simpa using hr
+      · cases hr : c.grpcStatus.isNone <;> simp [hr] at d; cases hq : c.grpcStatus <;> simp [hq] at hr ⊢
+    · intro hi
+      cases hr : (decide (500 ≤ c.status)) with
+      | true => simp [hi, hr] at h6
+      | false => simpa using hr
